@@ -4,12 +4,12 @@ package main
 // report, write evidence.
 
 import (
-	"os/exec"
 	"encoding/json"
 	"flag"
 	"fmt"
 	"math"
 	"os"
+	"os/exec"
 	"path/filepath"
 	"sort"
 	"strconv"
@@ -697,6 +697,9 @@ func selfTest(id string) map[string]interface{} {
 	if err != nil {
 		self = filepath.Join(verifRoot, "bin", "owvc")
 	}
+	var wgS sync.WaitGroup
+	var muS sync.Mutex
+	semS := make(chan struct{}, 2) // two scratch copies at a time
 	for _, mf := range dirs {
 		b, err := os.ReadFile(mf)
 		if err != nil {
@@ -714,17 +717,25 @@ func selfTest(id string) map[string]interface{} {
 		if err != nil {
 			continue
 		}
-		func() {
+		wgS.Add(1)
+		go func() {
+			defer wgS.Done()
+			semS <- struct{}{}
+			defer func() { <-semS }()
 			defer os.RemoveAll(scratch)
 			tree := filepath.Join(scratch, "repo")
 			if o, err := exec.Command("rsync", "-a", "--exclude", ".git", repoRoot+"/", tree+"/").CombinedOutput(); err != nil {
+				muS.Lock()
 				stale = append(stale, meta.Name+" (copy failed: "+truncate(string(o), 80)+")")
+				muS.Unlock()
 				return
 			}
 			pc := exec.Command("patch", "-p1", "-s", "--no-backup-if-mismatch", "-i", filepath.Join(seedDir, "patch.diff"))
 			pc.Dir = tree
 			if _, err := pc.CombinedOutput(); err != nil {
+				muS.Lock()
 				stale = append(stale, meta.Name+" (patch no longer applies)")
+				muS.Unlock()
 				return
 			}
 			cmd := exec.Command(self, "check", id, "--tier", "quick")
@@ -745,12 +756,17 @@ func selfTest(id string) map[string]interface{} {
 						break
 					}
 				}
+				muS.Lock()
 				detected = append(detected, meta.Name+": "+strings.TrimSuffix(first, ".json"))
+				muS.Unlock()
 			} else {
+				muS.Lock()
 				missed = append(missed, meta.Name)
+				muS.Unlock()
 			}
 		}()
 	}
+	wgS.Wait()
 	out["seeds"] = len(detected) + len(missed) + len(stale)
 	out["detected"] = detected
 	out["missed"] = missed
